@@ -19,6 +19,12 @@ the plugins' own generators; all of them are expressed in the spec, so a replay 
   completion times in `TaskGraph.get_schedulable_tasks` has to expand B twice (once from its own estimate,
   once after X raised it); nothing of the chain is schedulable.  A share of control worlds has the lookahead
   beyond the whole chain (everything is re-offered).
+* **warm scheduler** (`gen_warmup` / `run_warmup`): before the judged invocation the SAME scheduler object is
+  invoked once on a small independent warm-up world (`spec["warmup"]`: its own one-worker cluster and one or two
+  released short-deadline tasks at an earlier time; no Task / Worker / graph shared with the judged world; the
+  result is ignored).  A planner keeps no state between invocations (the ILP's `_allowed_to_miss_deadlines` is
+  an input of its model and is read at the judged call), so the captured model, the decisions and every oracle
+  of the judged invocation must be what they are with a fresh scheduler.
 """
 from __future__ import annotations
 
@@ -203,3 +209,39 @@ def gen_chain_b(r, now_choices=(0, 3, 7), extra_graph=True) -> dict:
             {"name": "Y", "ts": 0, "state": "RELEASED", "strats": [{"batch": 1, "runtime": r.randint(1, 3), "req": [["CPU", 1]]}],
              "deadline": now + 12, "release": now}]})
     return {"now": now, "pools": pools, "graphs": graphs, "lookahead": look, "control": control}
+
+
+def gen_warmup(spec: dict, r) -> dict:
+    """Adds `spec["warmup"]` (in place): an earlier instant, a 1-2 CPU worker and one or two released tasks whose
+    deadline is the earliest finish or a little later (on the spec's time scale)."""
+    k = spec.get("scale") or 1
+    t0 = r.randint(0, spec["now"] // k) * k
+    tasks = []
+    for _ in range(r.randint(1, 2)):
+        rt = r.randint(1, 4)
+        tasks.append({"runtime": rt * k, "deadline": t0 + (rt + r.randint(0, 2)) * k})
+    spec["warmup"] = {"now": t0, "cpu": r.randint(1, 2), "tasks": tasks}
+    return spec
+
+
+def run_warmup(R, scheduler, wu: dict):
+    """One invocation of `scheduler` on the warm-up world; returns what it returned (ignored by the callers)."""
+    Resource, Resources = R["Resource"], R["Resources"]
+    worker = R["Worker"](name="WarmW", resources=Resources({Resource(name="CPU"): wu["cpu"]}))
+    pool = R["WorkerPool"](name="WarmP", workers=[worker])
+    graphs = {}
+    for i, t in enumerate(wu["tasks"]):
+        strategies = R["ExecutionStrategies"](
+            [R["ExecutionStrategy"](resources=Resources(resource_vector={Resource(name="CPU", _id="any"): 1}), batch_size=1, runtime=et(R, t["runtime"]))]
+        )
+        task = R["Task"](
+            name=f"Warm{i}",
+            task_graph=f"WARM{i}",
+            job=R["Job"](name=f"Warm{i}", profile=R["WorkProfile"](name=f"Warm{i}_profile", execution_strategies=strategies)),
+            deadline=et(R, t["deadline"]),
+            timestamp=0,
+        )
+        graphs[f"WARM{i}"] = R["TaskGraph"](name=f"WARM{i}", tasks={task: []})
+        task.release(et(R, wu["now"]))
+    workload = R["Workload"].from_task_graphs(graphs)
+    return scheduler.schedule(et(R, wu["now"]), workload, R["WorkerPools"]([pool]))
